@@ -21,6 +21,12 @@ def parseNat (cs : List Char) : Option (Nat × List Char) :=
   let ds := cs.takeWhile Char.isDigit
   if ds.isEmpty then none else some (ds.foldl (fun a c => a * 10 + (c.toNat - '0'.toNat)) 0, cs.drop ds.length)
 
+/-- `_<k>` after a loop count names the Lua rendering (expression-list shape of a generic for,
+    repeat-until for a loop); it does not change the program -/
+def skipShape : List Char → List Char
+  | '_' :: cs => cs.dropWhile Char.isDigit
+  | cs => cs
+
 def seqOf : List Prog → Prog
   | [] => .skip
   | [p] => p
@@ -42,12 +48,16 @@ partial def parseProg : List Char → Option (Prog × List Char)
   | 'C' :: '(' :: cs => (parseSeq cs []).map fun (ps, r) => (.call (seqOf ps), r)
   | 'V' :: '(' :: cs => (parseSeq cs []).map fun (ps, r) => (.retCall (seqOf ps), r)
   | 'F' :: cs => match parseNat cs with
-    | some (n, '(' :: r) => match parseSeq r [] with
-      | some (.tbc v :: ps, r2) => some (Prog.forin v n (seqOf ps), r2)
+    | some (n, r0) => match skipShape r0 with
+      | '(' :: r => match parseSeq r [] with
+        | some (.tbc v :: ps, r2) => some (Prog.forin v n (seqOf ps), r2)
+        | _ => none
       | _ => none
     | _ => none
   | 'L' :: cs => match parseNat cs with
-    | some (n, '(' :: r) => (parseSeq r []).map fun (ps, r2) => (.loop n (seqOf ps), r2)
+    | some (n, r0) => match skipShape r0 with
+      | '(' :: r => (parseSeq r []).map fun (ps, r2) => (.loop n (seqOf ps), r2)
+      | _ => none
     | _ => none
   | _ => none
 partial def parseSeq (cs : List Char) (acc : List Prog) : Option (List Prog × List Char) :=
